@@ -283,6 +283,9 @@ class EFloatFormat(EncodableFormat):
                     ebits = bitmask(self.es)
                     mbits = bitmask(self.m)
                 case EFloatNanKind.NEG_ZERO:
+                    # NaN *is* the negative-zero pattern, whatever sign the
+                    # NaN value carries (a NaN from rounding has none set)
+                    sbit = 1
                     ebits = 0
                     mbits = 0
                 case _:
